@@ -84,9 +84,22 @@ def rule_lines_evaluated(ctx, res, sizes):
                       '{}'.format(sec, d), wf.loc if wf else '',
                       semantic=True)
             done.add('writer')
+        skip = set(ref.MUSIC_UNREPRESENTABLE) if sec == 'music' else set()
         if isinstance(se.reader_ref, AnalysisError):
-            res.info(rule, se.cls.qual, sec + ': reader not followed by the '
-                     'whole-function evaluation', str(se.reader_ref)[:160])
+            ok, d, note = se.prefix_check('ref', skip)
+            if ok:
+                res.check(d is None, rule, se.cls.qual,
+                          '{} reader: from_lines(reference text) == memory '
+                          'on every path (tests on content bits followed)'
+                          .format(sec), note,
+                          '{} section is not read per the PICO-8 format: '
+                          '{}'.format(sec, d), rf.loc if rf else '',
+                          semantic=True)
+                done.add('reader')
+            else:
+                res.info(rule, se.cls.qual, sec + ': reader not followed by '
+                         'the whole-function evaluation',
+                         (str(se.reader_ref) + ' / ' + note)[:200])
         else:
             skip = set(ref.MUSIC_UNREPRESENTABLE) if sec == 'music' else set()
             d = se.mem_diff(se.reader_ref, skip)
@@ -218,6 +231,37 @@ def expected_sfx_note_digits():
 
 def rule_sfx(ctx, res, sizes, skip=()):
     S = 'pico8.sfx.sfx:Sfx'
+    try:
+        _rule_sfx_accessors(ctx, res, sizes, S)
+    except AnalysisError as e:
+        # the statement-form analysis cannot follow get_note / set_note:
+        # decide the note word layout by evaluating them
+        from . import c17eval
+        try:
+            results = [r for r in c17eval.eval_sfx(ctx, sizes['sfx'])[0]
+                       if r[1] in ('get_note', 'set_note')]
+        except AnalysisError as e2:
+            raise AnalysisError('{}; evaluation: {}'.format(e, e2))
+        # drop the half-finished instances of the statement-form attempt
+        res.instances[:] = [i for i in res.instances if not (
+            i.rule == 'R-C16-sfx' and ('get_note' in i.inst or
+                                       'set_note' in i.inst))]
+        for (_rule, meth, inst, prob) in results:
+            if prob is not None:
+                res.violation('R-C16-sfx', S + '.' + meth,
+                              '{}: {} (evaluated)'.format(meth, inst), prob,
+                              '', semantic=True)
+                continue
+            for fld in ('pitch', 'waveform', 'volume', 'effect'):
+                res.holds('R-C16-sfx', S + '.' + meth,
+                          '{}: {} = note word bits {} (evaluated)'.format(
+                              meth, fld, ref.SFX_NOTE_BITS[fld]),
+                          'note word layout of the format, evaluated on '
+                          'symbolic memory', '')
+    _rule_sfx_lines(ctx, res, sizes, S, skip)
+
+
+def _rule_sfx_accessors(ctx, res, sizes, S):
     # RAM note layout from get_note
     r = {'id': (0, 63), 'note': (0, 31)}
     base = Aff({'id': 68, 'note': 2}, 0)
@@ -270,6 +314,9 @@ def rule_sfx(ctx, res, sizes, skip=()):
                       name, ref.SFX_NOTE_BITS[name]), '',
                   'set_note writes {} to word bits {} (format: {})'.format(
                       name, placed, want), s.loc)
+
+
+def _rule_sfx_lines(ctx, res, sizes, S, skip=()):
     def writer():
         # line writer
         w = codecs.sfx_writer_layout(ctx)
